@@ -114,11 +114,24 @@ type seqRun struct {
 
 	opaque map[common.Address]bool
 	holder common.Address
+	tag    string
 }
 
 func (s *seqRun) wit(extra Witness) Witness {
 	extra.Variant, extra.Seq = s.variant, s.idx
 	return extra
+}
+
+// vio reports a violation; scenarios that deliberately build a hostile shape
+// carry a tag so that their findings get their own signature class.
+func (s *seqRun) vio(sig, what string, w Witness) {
+	if s.tag != "" {
+		// one signature for the whole scenario: its consequences (partial root,
+		// unreadable slots, iterator errors ...) are one finding, not several
+		what = "[" + strings.TrimPrefix(sig, "C03:") + "] " + what
+		sig = "C03:" + s.tag
+	}
+	s.r.Violation(sig, what, w)
 }
 
 func (s *seqRun) resetMemos() {
@@ -310,7 +323,7 @@ func (s *seqRun) judgePrefix(cands []common.Hash, durable map[common.Hash]bool, 
 		if !present {
 			if durable[root] {
 				w.Detail = "top node gone"
-				s.r.Violation("C03:crash:durable-root-lost", fmt.Sprintf("root %s was durable before commit %d began; after %d of %d physical writes its top node is no longer in the store", root.Hex(), w.Commit, w.Prefix, w.Units), s.wit(w))
+				s.vio("C03:crash:durable-root-lost", fmt.Sprintf("root %s was durable before commit %d began; after %d of %d physical writes its top node is no longer in the store", root.Hex(), w.Commit, w.Prefix, w.Units), s.wit(w))
 			}
 			continue
 		}
@@ -323,12 +336,12 @@ func (s *seqRun) judgePrefix(cands []common.Hash, durable map[common.Hash]bool, 
 		}
 		if err := s.walkReal(root); err != nil {
 			w.Detail = err.Error()
-			s.r.Violation(sig, fmt.Sprintf(what, w.Prefix, w.Units, w.Commit, root.Hex(), err), s.wit(w))
+			s.vio(sig, fmt.Sprintf(what, w.Prefix, w.Units, w.Commit, root.Hex(), err), s.wit(w))
 			continue
 		}
 		if err := s.walkIndep(root); err != nil {
 			w.Detail = err.Error()
-			s.r.Violation(sig+":indep", fmt.Sprintf(what, w.Prefix, w.Units, w.Commit, root.Hex(), err), s.wit(w))
+			s.vio(sig+":indep", fmt.Sprintf(what, w.Prefix, w.Units, w.Commit, root.Hex(), err), s.wit(w))
 		}
 	}
 }
@@ -377,7 +390,7 @@ func (d *durCtx) mismatch(kind, what string, coldV, refV []byte, warmV func() []
 			d.ri.Root.Hex(), kind, what, trunc(coldV), trunc(refV), d.s.variant, d.s.idx, d.w.Commit)
 		return
 	}
-	d.s.r.Violation("C03:durability:"+kind, fmt.Sprintf("root %s reported committed; cold reopen from the written units: %s reads %x, written value %x (live process reads %x)",
+	d.s.vio("C03:durability:"+kind, fmt.Sprintf("root %s reported committed; cold reopen from the written units: %s reads %x, written value %x (live process reads %x)",
 		d.ri.Root.Hex(), what, trunc(coldV), trunc(refV), trunc(wv)), d.s.wit(w))
 }
 
@@ -414,7 +427,7 @@ func (s *seqRun) checkDurable(ri rootInfo, phase string) {
 	w := Witness{Commit: ri.Commit, Root: ri.Root.Hex(), Detail: phase}
 	r.Count("durability_checks", 1)
 	if ok, _ := s.crash.Has(ri.Root[:]); !ok && !isEmptyRoot(ri.Root) {
-		r.Violation("C03:durability:root-missing", fmt.Sprintf("commit %d reported success for root %s but the written units do not contain its top node (%s)", ri.Commit, ri.Root.Hex(), phase), s.wit(w))
+		s.vio("C03:durability:root-missing", fmt.Sprintf("commit %d reported success for root %s but the written units do not contain its top node (%s)", ri.Commit, ri.Root.Hex(), phase), s.wit(w))
 		return
 	}
 	sdbCold := account.NewDatabase(s.crash)
@@ -422,7 +435,7 @@ func (s *seqRun) checkDurable(ri rootInfo, phase string) {
 	cold, err := account.NewAccountDB(ri.Root, sdbCold)
 	if err != nil {
 		w.Detail = err.Error()
-		r.Violation("C03:durability:root-not-openable", fmt.Sprintf("commit %d reported success for root %s; cold open fails: %v (%s)", ri.Commit, ri.Root.Hex(), err, phase), s.wit(w))
+		s.vio("C03:durability:root-not-openable", fmt.Sprintf("commit %d reported success for root %s; cold open fails: %v (%s)", ri.Commit, ri.Root.Hex(), err, phase), s.wit(w))
 		return
 	}
 	var warm *account.AccountDB
@@ -489,7 +502,7 @@ func (s *seqRun) checkDurable(ri rootInfo, phase string) {
 	r.Count("accessor_reads", reads)
 	if err := cold.Error(); err != nil {
 		w.Detail = err.Error()
-		r.Violation("C03:durability:read-error", fmt.Sprintf("cold reads of committed root %s memoized a database error: %v", ri.Root.Hex(), err), s.wit(w))
+		s.vio("C03:durability:read-error", fmt.Sprintf("cold reads of committed root %s memoized a database error: %v", ri.Root.Hex(), err), s.wit(w))
 	}
 
 	// completeness: iterate the account trie and every storage trie to the end
@@ -502,7 +515,7 @@ func (s *seqRun) checkDurable(ri rootInfo, phase string) {
 	}
 	tr, err := sdbCold.OpenTrie(ri.Root)
 	if err != nil {
-		r.Violation("C03:durability:root-not-openable", fmt.Sprintf("OpenTrie(%s) on the cold store: %v", ri.Root.Hex(), err), s.wit(w))
+		s.vio("C03:durability:root-not-openable", fmt.Sprintf("OpenTrie(%s) on the cold store: %v", ri.Root.Hex(), err), s.wit(w))
 		return
 	}
 	seen := map[common.Address]bool{}
@@ -528,7 +541,7 @@ func (s *seqRun) checkDurable(ri rootInfo, phase string) {
 		if di.Err != nil {
 			w2 := w
 			w2.Detail = di.Err.Error()
-			r.Violation("C03:durability:storage-iteration", fmt.Sprintf("committed root %s: iterating the storage of %s on the cold store stops with: %v", ri.Root.Hex(), a.GetHexString(), di.Err), s.wit(w2))
+			s.vio("C03:durability:storage-iteration", fmt.Sprintf("committed root %s: iterating the storage of %s on the cold store stops with: %v", ri.Root.Hex(), a.GetHexString(), di.Err), s.wit(w2))
 			continue
 		}
 		if s.opaque[a] {
@@ -561,7 +574,7 @@ func (s *seqRun) checkDurable(ri rootInfo, phase string) {
 	if it.Err != nil {
 		w2 := w
 		w2.Detail = it.Err.Error()
-		r.Violation("C03:durability:account-iteration", fmt.Sprintf("committed root %s: iterating the account trie on the cold store stops with: %v", ri.Root.Hex(), it.Err), s.wit(w2))
+		s.vio("C03:durability:account-iteration", fmt.Sprintf("committed root %s: iterating the account trie on the cold store stops with: %v", ri.Root.Hex(), it.Err), s.wit(w2))
 	}
 	r.Count("leaves_iterated", leaves+int64(len(seen)))
 	for a := range ref.Accts {
@@ -597,7 +610,7 @@ func (s *seqRun) checkDurable(ri rootInfo, phase string) {
 	if nit.Error != nil {
 		w2 := w
 		w2.Detail = nit.Error.Error()
-		r.Violation("C03:durability:state-iteration", fmt.Sprintf("committed root %s: account.NodeIterator on the cold store stops with: %v", ri.Root.Hex(), nit.Error), s.wit(w2))
+		s.vio("C03:durability:state-iteration", fmt.Sprintf("committed root %s: account.NodeIterator on the cold store stops with: %v", ri.Root.Hex(), nit.Error), s.wit(w2))
 	}
 }
 
@@ -677,7 +690,15 @@ func runSequence(r *mon.Run, variant string, idx int, inner db.Database, onOK fu
 		s.commitBlock(common.Hash{}, ops, ref, "genesis", "normal", 0)
 	}
 
-	for _, spec := range planSequence(s.rng) {
+	specs := planSequence(s.rng)
+	if variant == "collide" {
+		// hostile shape: contract code whose bytes are the RLP of a trie node that
+		// the same block creates (code blobs and trie nodes share one key space)
+		s.tag = "code-is-trie-node"
+		specs = []blockSpec{{Kind: "small", Mode: "normal", Parent: -2}, {Kind: "collide", Mode: "normal", Parent: -2},
+			{Kind: "small", Mode: "normal", Parent: -2}, {Kind: "medium", Mode: "normal", Parent: -2}}
+	}
+	for _, spec := range specs {
 		parentRoot := common.Hash{}
 		base := newRefState()
 		var older []*refState
@@ -694,7 +715,14 @@ func runSequence(r *mon.Run, variant string, idx int, inner db.Database, onOK fu
 				older = append(older, c.Ref)
 			}
 		}
-		ops, post := s.g.block(spec.Kind, base, older)
+		var ops []Op
+		var post *refState
+		if spec.Kind == "collide" {
+			ops, post = s.g.collideBlock(base, storageRootNode)
+			r.Count("code_is_trie_node_blocks", 1)
+		} else {
+			ops, post = s.g.block(spec.Kind, base, older)
+		}
 		s.commitBlock(parentRoot, ops, post, spec.Kind, spec.Mode, spec.FailAt)
 	}
 
@@ -736,7 +764,7 @@ func (s *seqRun) commitBlock(parentRoot common.Hash, ops []Op, post *refState, k
 		if adb == nil {
 			adb, err = account.NewAccountDB(parentRoot, s.sdb)
 			if err != nil {
-				r.Violation("C03:live:parent-not-openable", fmt.Sprintf("committed root %s cannot be opened in the live process: %v", parentRoot.Hex(), err), s.wit(Witness{Commit: cn, Root: parentRoot.Hex()}))
+				s.vio("C03:live:parent-not-openable", fmt.Sprintf("committed root %s cannot be opened in the live process: %v", parentRoot.Hex(), err), s.wit(Witness{Commit: cn, Root: parentRoot.Hex()}))
 				return common.Hash{}, false
 			}
 			applyOps(r, adb, ops)
@@ -848,6 +876,40 @@ func (s *seqRun) commitBlock(parentRoot common.Hash, ops []Op, post *refState, k
 }
 
 // ---------------------------------------------------------------------------
+
+// storageRootNode returns the encoded root node of the storage trie holding
+// exactly slots, as the real code writes it (scratch state on its own store).
+func storageRootNode(slots map[string][]byte) []byte {
+	mem, _ := db.NewMemDatabase()
+	sdb := account.NewDatabase(mem)
+	defer releaseCodeCache(sdb)
+	adb, err := account.NewAccountDB(common.Hash{}, sdb)
+	if err != nil {
+		panic(err)
+	}
+	a := common.HexToAddress("0x00000000000000000000000000000000000000aa")
+	adb.SetNonce(a, 1)
+	for k, v := range slots {
+		adb.SetData(a, []byte(k), v)
+	}
+	root, err := adb.Commit(true)
+	if err != nil {
+		panic(err)
+	}
+	if err := sdb.TrieDB().Commit(root, false); err != nil {
+		panic(err)
+	}
+	cold, err := account.NewAccountDB(root, account.NewDatabase(mem))
+	if err != nil {
+		panic(err)
+	}
+	sr := cold.StorageTrie(a).Hash()
+	blob, err := mem.Get(sr[:])
+	if err != nil {
+		panic("scratch storage root not on the scratch store")
+	}
+	return blob
+}
 
 // warmBinding loads the process-global balance-contract cache once, before any
 // goroutine uses it (bound variant).
